@@ -127,4 +127,15 @@ theorem cli_clean_maps_to_clean_mode (p : CliParsed) (f : CliFlags) (h : p.sub =
     ∀ fl bl n, ({ p with flags := fl, build := bl, needed := n } : CliParsed).config = p.config :=
   ⟨(clean_mode p f h).1, (clean_mode p f h).2.1, (clean_mode p f h).2.2.1, fun fl bl n => sub_ignores_top_level p _ h fl bl n⟩
 
+/-- The mechanism of the known finding F5, as a theorem about the model (= the code): a clean pass never
+reports dependencies, whatever `include` / `after` directives the source contains - so the coordinator
+is never told about `.txtpp` dependencies in clean mode and only the resolved inputs are cleaned.
+(`build a.txt` also builds what `a.txt` includes; `clean a.txt` removes only what `a.txt.txtpp` itself
+generated. Documented in `Mode::Clean`; reported as KNOWN-FINDING by the C07 job, not repaired.) -/
+theorem clean_never_reports_dependencies {W : Type} (Wd : World W) (le : List Char) (first trailing : Bool) (w : W)
+    (lines : List (List Char)) (deps : List (List Char)) (w' : W) :
+    ppPass Wd .clean le first trailing w lines true ≠ .hasDeps deps w' := by
+  obtain ⟨out, w'', h⟩ := clean_pass_ok Wd le first trailing w lines
+  rw [h]; simp
+
 end C07
